@@ -49,6 +49,11 @@ add("C05", "model_checking",
     "The peer is written from docs/F6FBB-B2F + DESIGN.md App. E.2/H. Answer E excluded. Early FQ only after the Session said FF (as the CMS does).",
     "stateless exploration against an independent reference peer; deviation-bounded product over peer encoding choices", "link", "DESIGN.md §5 C05")
 
+add("C04", "fault_enumeration",
+    "For each of 3 (thorough 6) messages, one clean sender/receiver exchange locates the SOH..EOT range with the reference frame parser; then every offset x all 255 substitution values, every single deletion, insertions of 00/01/02/04/FF at every offset, checksum-compensating +d/-d pairs at distance 1..8 on data bytes, adjacent swaps and data-byte/EOT-checksum pairs are applied in transit and the full two-station exchange is re-run. Oracle: ProcessInbound never called for the damaged transfer, receiver's Exchange returns an error (no panic), sender never calls SetSent(mid,false). Alterations the independent frame parser + LZHUF/CRC reference accept as fully valid are excluded (counted).",
+    "The quick tier uses a 6-value menu per byte for the multi-chunk message (full sweep in thorough). Damage is a single contiguous or two-point alteration; bursts are not enumerated.",
+    "exhaustive fault enumeration (offset x alteration menu) on two real Sessions over the deterministic link with a man in the middle", "link", "DESIGN.md §5 C04")
+
 ids = [json.loads(l)["id"] for l in open("/verif/properties.jsonl")]
 na = [dict(property_id=i, reason="check not built yet in this session (planned, see DESIGN.md §5); not claimed until its command exists and is green") for i in ids if i not in checks]
 m = dict(version=1,
